@@ -676,10 +676,7 @@ theorem fds_execP (fdin : Option Handle) (tr : Trace) (ds : List Handle) (m : Ha
           ((match r with
             | Res.ok _ => Prog.call Call.waitpid fun w =>
                 match w with
-                | Res.ok status =>
-                  if (status % 128 == 0) = true then
-                    Prog.ret (if ((status / 256) % 256 == 127) = true then (-1 : Int) else (((status / 256) % 256 : Nat) : Int))
-                  else Prog.ret ((128 + status % 128 : Nat) : Int)
+                | Res.ok status => Prog.ret (execStatus status)
                 | _ => Prog.ret (-1 : Int)
             | _ => Prog.ret (-1 : Int)) : Prog Int).bind fun res =>
             (match devnull with
@@ -696,9 +693,7 @@ theorem fds_execP (fdin : Option Handle) (tr : Trace) (ds : List Handle) (m : Ha
         refine wp_call (by plain) fun w _ => ?_
         have h2 : FdsAre (T ++ [(Call.fork, Res.ok v)] ++ [(Call.waitpid, w)]) S' := h1.other rfl (.inl rfl)
         cases w with
-        | ok status =>
-          dsimp only
-          split <;> exact h2
+        | ok status => exact h2
         | err e => exact h2
         | name n => exact h2
         | eof => exact h2
